@@ -363,9 +363,9 @@ def run(ctx):
         ctx.note(case, nontrivial(case), classes_of(case, stats))
         ctx.handle(case, fails)
 
-    core.run_given(ctx, G.pair_case(), body, ctx.n(2200, 7000), label="c09-pairs")
-    core.run_given(ctx, G.triple_case(), body, ctx.n(350, 1000), label="c09-triples")
-    core.run_given(ctx, G.search_case(), body, ctx.n(200, 600), label="c09-search")
+    core.run_given(ctx, G.pair_case(), body, ctx.n(2200, 16000), label="c09-pairs")
+    core.run_given(ctx, G.triple_case(), body, ctx.n(350, 2500), label="c09-triples")
+    core.run_given(ctx, G.search_case(), body, ctx.n(200, 1200), label="c09-search")
     ctx.notes["generator_rejected_by_validator"] = seen["rejected"]
     if seen["rejected"] > 0.01 * max(seen["n"], 1):
         raise core.HarnessError("pattern generator unhealthy: %d of %d cases rejected by the third-party validator" % (seen["rejected"], seen["n"]))
